@@ -246,7 +246,7 @@ impl ModelSecp {
 	fn proj_commit(&self, c: &Commitment) -> Value {
 		match self.commits.get(&c.0.to_vec()) {
 			Some((v, r)) => json!([v, r]),
-			None => json!(["?", ser::ser_vec(c, ser::ProtocolVersion(3)).map(|b| grin_util::to_hex(&b)).unwrap_or_default()]),
+			None => json!(["?", grin_util::ToHex::to_hex(&c.0.to_vec())]),
 		}
 	}
 
